@@ -96,6 +96,9 @@ func fieldRoles() []fieldRole {
 				})
 			})
 		}},
+		{"server", "QuorumAckTracker", "commitOffset", "atomic counter that the CommitOffset() method loads", loadedByGetter("server", "QuorumAckTracker", "CommitOffset", "Load")},
+		{"server", "QuorumAckTracker", "headOffset", "atomic counter that the HeadOffset() method loads", loadedByGetter("server", "QuorumAckTracker", "HeadOffset", "Load")},
+		{"server", "QuorumAckTracker", "nextOffset", "atomic counter that the NextOffset() method advances", loadedByGetter("server", "QuorumAckTracker", "NextOffset", "Add")},
 		{"server/kv", "DB", "versionIdTracker", "atomic counter advanced by Add(1) when a record gets a new version", func(h *H, typ string, f *types.Var, ws []ir.FieldWrite) bool {
 			if !atomicInt64(f.Type()) {
 				return false
@@ -157,6 +160,30 @@ func fieldRoles() []fieldRole {
 	}
 }
 
+// loadedByGetter: the field is the atomic on which the implementation of an interface
+// method (a stable, exported anchor) calls the given sync/atomic method.
+func loadedByGetter(pkg, iface, method, atomicOp string) func(h *H, typ string, f *types.Var, ws []ir.FieldWrite) bool {
+	return func(h *H, typ string, f *types.Var, ws []ir.FieldWrite) bool {
+		found := false
+		for _, fn := range h.P.ImplMethods(pkg, iface, method) {
+			ir.Instrs(fn, func(in ssa.Instruction) {
+				c, ok := in.(*ssa.Call)
+				if !ok {
+					return
+				}
+				g := c.Call.StaticCallee()
+				if g == nil || g.Pkg == nil || g.Pkg.Pkg.Path() != "sync/atomic" || g.Name() != atomicOp || len(c.Call.Args) == 0 {
+					return
+				}
+				if ref, ok := ir.FieldAddrOf(c.Call.Args[0]); ok && ref.Struct != nil && ref.Struct.Obj().Name() == typ && ref.Field == f.Name() {
+					found = true
+				}
+			})
+		}
+		return found
+	}
+}
+
 // resolveFieldRoles registers aliases for renamed role fields (run once per process).
 var rolesResolved bool
 
@@ -189,6 +216,32 @@ func resolveFieldRoles(h *H) {
 			f := st.Field(i)
 			if r.match(h, tn, f, h.P.FieldWrites(r.pkg, tn, f.Name())) {
 				cands = append(cands, f.Name())
+			}
+		}
+		if len(cands) == 0 {
+			// grouped into a private struct held by value: look one level down
+			type nc struct{ inner, field string }
+			var ncs []nc
+			for i := 0; i < st.NumFields(); i++ {
+				in, ok := types.Unalias(st.Field(i).Type()).(*types.Named)
+				if !ok || in.Obj().Exported() || in.Obj().Pkg() == nil || in.Obj().Pkg() != ts[0].Obj().Pkg() {
+					continue
+				}
+				ist, ok := in.Underlying().(*types.Struct)
+				if !ok {
+					continue
+				}
+				for j := 0; j < ist.NumFields(); j++ {
+					f := ist.Field(j)
+					if r.match(h, in.Obj().Name(), f, h.P.FieldWrites(r.pkg, in.Obj().Name(), f.Name())) {
+						ncs = append(ncs, nc{in.Obj().Name(), f.Name()})
+					}
+				}
+			}
+			if len(ncs) == 1 {
+				ir.SetNestedFieldAlias(r.pkg, tn, r.role, ncs[0].inner, ncs[0].field)
+				h.Note("field role %s.%s.%s is played by %s.%s, a struct nested in %s (%s)", r.pkg, tn, r.role, ncs[0].inner, ncs[0].field, tn, r.why)
+				continue
 			}
 		}
 		if len(cands) == 1 {
